@@ -129,6 +129,7 @@ pub struct Obs {
     pub stale_wakes: u64,
     pub ready_now: u64,
     pub yields: u64,
+    pub migrated: bool,
     /// threads still unfinished when the caller's closure returned (thread mode)
     pub unfinished_at_return: u32,
     pub log_hash: u64,
@@ -181,6 +182,7 @@ pub fn run_sim(prog: &Prog, kind: Kind, plan: &Plan, strat: Strat, seed: u64, re
                 stale_wakes: 0,
                 ready_now: 0,
                 yields: 0,
+                migrated: false,
                 unfinished_at_return: tr.unfinished_at_return,
                 log_hash,
             }
@@ -221,6 +223,7 @@ pub fn run_sim(prog: &Prog, kind: Kind, plan: &Plan, strat: Strat, seed: u64, re
                 stale_wakes: ar.stale_wakes,
                 ready_now: ar.ready_now,
                 yields: ar.yields,
+                migrated: ar.migrated,
                 unfinished_at_return: 0,
                 log_hash,
             }
